@@ -13,39 +13,45 @@ EXTENDS Par, TLC, Json, IOUtils, SequencesExt
 
 Rec == ndJsonDeserialize(IOEnv.TRACE)
 
-VARIABLES l, bad
-vars == <<l, bad>>
+VARIABLES l, bad, drift
+vars == <<l, bad, drift>>
 
 Sel(evs, name) == SelectSeq(evs, LAMBDA x : x.ev = name)
 
+\* The property (C11): a command that the design says cannot abort did not, and its result is that of the
+\* single-threaded run.
 RunOK(e) ==
+   /\ Run(e.cmd, e.input, e.threads) = "ok"          \* the design says this command cannot abort
+   /\ e.rc = 0                                       \* and it did not
+   /\ e.same_as_t1                                   \* and the result is that of the single-threaded run
+
+\* Conformance of the implementation-shaped model (Par.tla): the pool was configured exactly as the command's program
+\* says, in that order, and building from sequence files used the specified split.  A difference here with RunOK true
+\* means the model no longer describes the code (MODEL DRIFT); it is counted, it is not a violation.
+RunConforms(e) ==
    LET prog == Program(e.cmd, e.input, e.threads)
        inits == Sel(e.hook, "pool.init")
        dones == Sel(e.hook, "pool.done")
        splits == Sel(e.hook, "par.split")
        leaves == Sel(e.hook, "par.leaf")
-   IN /\ Run(e.cmd, e.input, e.threads) = "ok"          \* the design says this command cannot abort
-      /\ e.rc = 0                                       \* and it did not
-      \* the pool was configured exactly as the program says, in that order
-      /\ Len(inits) = Len(prog) /\ Len(dones) = Len(prog)
+   IN /\ Len(inits) = Len(prog) /\ Len(dones) = Len(prog)
       /\ \A i \in 1..Len(prog) : inits[i].site = prog[i][2] /\ inits[i].prior_inits = i - 1
                                  /\ inits[i].threads = e.threads
-      \* building from sequence files used the specified split
       /\ (e.input = "seqs" /\ e.cmd \in {"build", "align", "map"} =>
             /\ Len(splits) = 1
             /\ splits[1].depth = Depth(e.nsamples, e.threads)
             /\ {<<leaves[i].offset, leaves[i].n>> : i \in 1..Len(leaves)}
                   = ToSet(Leaves(Depth(e.nsamples, e.threads), 0, e.nsamples))
             /\ Len(leaves) = Len(Leaves(Depth(e.nsamples, e.threads), 0, e.nsamples)))
-      \* and the result is that of the single-threaded run
-      /\ e.same_as_t1
 
 Accept(e) == CASE e.ev = "run" -> RunOK(e) [] OTHER -> FALSE
+Drifts(e) == e.ev = "run" /\ e.rc = 0 /\ ~RunConforms(e)
 
-Init == l = 1 /\ bad = {}
+Init == l = 1 /\ bad = {} /\ drift = 0
 Next == /\ l <= Len(Rec)
         /\ LET ok == Accept(Rec[l]) IN bad' = IF ok THEN bad ELSE bad \cup {l}
+        /\ drift' = IF Drifts(Rec[l]) THEN drift + 1 ELSE drift
         /\ l' = l + 1
 Spec == Init /\ [][Next]_vars
-AtEnd == l > Len(Rec) => PrintT(<<"TRACE-END", ToJson([n |-> Len(Rec), bad |-> SetToSortSeq(bad, <)])>>)
+AtEnd == l > Len(Rec) => PrintT(<<"TRACE-END", ToJson([n |-> Len(Rec), bad |-> SetToSortSeq(bad, <), drift |-> drift])>>)
 =============================================================================
